@@ -1,5 +1,205 @@
+/-
+  C17 — token groups, group weights, the sparse COO matrix and padding.
+  Model: `Tu.groupWeights`, `Tu.sparseCoo`, `Tu.paddingMask`, `Tu.padIds` (Model/Groups.lean),
+  `Tu.byteGroups` (Model/ByteTok.lean).
+-/
 import TuModel.Model.Groups
+import TuModel.Lemmas.GroupsL
 namespace Tu.C17
 open Tu
-theorem placeholder_padIds_nil (pad : Nat) : padIds [] pad = ([], []) := rfl
+
+/-- value equality of two fractions -/
+def Q.eqv (a b : Q) : Prop := a.num * b.den = b.num * a.den
+/-- exact sum of a list of fractions -/
+def qsum (l : List Q) : Q := l.foldl Q.add Q.zero
+
+instance (a b : Q) : Decidable (Q.eqv a b) := inferInstanceAs (Decidable (_ = _))
+
+/-! ### group weights -/
+
+/-- one weight per token of the group -/
+theorem groupWeights_length (mean : Bool) (g : TGroup) : (groupWeights mean g).length = g.len :=
+  GroupsL.groupWeights_length mean g
+
+/-- sum aggregation: all ones -/
+theorem groupWeights_sum_mode (g : TGroup) : ∀ w ∈ groupWeights false g, w = Q.one := by
+  intro w hw
+  cases g with
+  | full n =>
+    simp only [groupWeights, Bool.false_eq_true, if_false] at hw
+    exact (List.mem_replicate.1 hw).2
+  | nested gs =>
+    simp only [groupWeights, Bool.false_eq_true, if_false, List.mem_flatMap] at hw
+    obtain ⟨n, _, hn⟩ := hw
+    rw [(List.mem_replicate.1 hn).2]
+    rfl
+
+/-- mean aggregation: the weights of a (non-degenerate) group sum to one -/
+theorem groupWeights_mean_full (n : Nat) (hn : 0 < n) : Q.eqv (qsum (groupWeights true (.full n))) Q.one := by
+  simp only [groupWeights, if_true, qsum, Q.eqv]
+  obtain ⟨e, _⟩ := GroupsL.foldl_add_replicate 1 n hn n Q.zero Nat.one_pos
+  generalize (List.replicate n (⟨1, n⟩ : Q)).foldl Q.add Q.zero = r at e
+  simp only [Q.zero, Q.one] at e ⊢
+  apply Nat.eq_of_mul_eq_mul_left hn
+  grind
+
+theorem groupWeights_mean_nested (gs : List Nat) (hne : gs ≠ []) (hpos : ∀ n ∈ gs, 0 < n) :
+    Q.eqv (qsum (groupWeights true (.nested gs))) Q.one := by
+  have hL : 0 < gs.length := List.length_pos_iff.2 hne
+  simp only [groupWeights, if_true, qsum, Q.eqv, Q.mul]
+  obtain ⟨e, _⟩ := GroupsL.foldl_add_nested gs.length hL gs hpos Q.zero Nat.one_pos
+  generalize (gs.flatMap (fun n => List.replicate n (⟨1 * 1, n * gs.length⟩ : Q))).foldl Q.add Q.zero = r at e
+  simp only [Q.zero, Q.one] at e ⊢
+  apply Nat.eq_of_mul_eq_mul_left hL
+  grind
+
+/-! ### byte tokenizer groups -/
+
+/-- **the group lengths sum to the number of token ids, with one group per character, special
+token, prefix and suffix token** -/
+theorem byteGroups_sum (cfg : ByteCfg) (pieces : List (Option (List (List Nat)))) :
+    ((byteGroups cfg pieces).map TGroup.len).sum =
+      cfg.sp.prefixIds.length +
+      (pieces.map (fun p => match p with | none => 1 | some cl => (cl.flatten.map utf8Len).sum)).sum +
+      cfg.sp.suffixIds.length := by
+  simp only [byteGroups, List.map_append, List.sum_append, List.map_map, Function.comp_def, TGroup.len,
+    GroupsL.sum_map_const_one, GroupsL.sum_flatMap_map]
+  congr 2
+  congr 1
+  apply List.map_congr_left
+  intro p _
+  cases p with
+  | none => rfl
+  | some cl => exact GroupsL.regularGroups_sum _ cl
+
+theorem byteGroups_count (cfg : ByteCfg) (pieces : List (Option (List (List Nat)))) :
+    (byteGroups cfg pieces).length =
+      cfg.sp.prefixIds.length + (pieces.map (fun p => match p with | none => 1 | some cl => cl.length)).sum +
+        cfg.sp.suffixIds.length := by
+  simp only [byteGroups, List.length_append, List.length_map, GroupsL.length_flatMap']
+  congr 2
+  congr 1
+  apply List.map_congr_left
+  intro p _
+  cases p with
+  | none => rfl
+  | some cl => exact GroupsL.regularGroups_length _ cl
+
+/-- the UTF-8 encoding of a code point has `utf8Len` bytes (so the group lengths count bytes =
+token ids) -/
+theorem utf8_length (c : Nat) : (utf8 c).length = utf8Len c := by
+  unfold utf8 utf8Len
+  split
+  · rfl
+  · split
+    · rfl
+    · split <;> rfl
+
+/-! ### the sparse COO matrix -/
+
+/-- the sparse matrix is produced whenever the group lengths of every item sum to its token count … -/
+theorem sparseCoo_total (groupings : List (List TGroup × Bool)) (lengths : List Nat)
+    (hl : groupings.length = lengths.length)
+    (hs : ∀ p ∈ groupings.zip lengths, (p.1.1.map TGroup.len).sum = p.2) :
+    (sparseCoo groupings lengths).isSome = true := by
+  unfold sparseCoo
+  have h1 : (groupings.length != lengths.length) = false := by simp [hl]
+  have h2 : (groupings.zip lengths).any (fun ((gs, _), l) => (gs.map TGroup.len).sum != l) = false := by
+    rw [List.any_eq_false]
+    intro p hp
+    have := hs p hp
+    obtain ⟨⟨gs, m⟩, l⟩ := p
+    simpa using this
+  simp only [h1, h2, Bool.false_eq_true, if_false, Option.isSome_some]
+
+/-- … has exactly one entry per token … -/
+theorem sparseCoo_entries (groupings : List (List TGroup × Bool)) (lengths : List Nat) (c : Coo)
+    (h : sparseCoo groupings lengths = some c) :
+    c.rowBatch.length = lengths.sum ∧ c.rowGroup.length = lengths.sum ∧ c.rowToken.length = lengths.sum ∧
+      c.values.length = lengths.sum := by
+  obtain ⟨hl, hs, rfl⟩ := GroupsL.sparseCoo_some h
+  simp only [List.length_map, GroupsL.cooEntries_length groupings lengths hl hs, and_self]
+
+/-- … and every index lies inside the declared size -/
+theorem sparseCoo_in_bounds (groupings : List (List TGroup × Bool)) (lengths : List Nat) (c : Coo)
+    (h : sparseCoo groupings lengths = some c) (k : Nat) (hk : k < c.rowBatch.length) :
+    c.size.length = 3 ∧ c.rowBatch.getD k 0 < c.size.getD 0 0 ∧ c.rowGroup.getD k 0 < c.size.getD 1 0 ∧
+      c.rowToken.getD k 0 < c.size.getD 2 0 := by
+  obtain ⟨hl, hs, rfl⟩ := GroupsL.sparseCoo_some h
+  simp only [List.length_map] at hk
+  have hm := GroupsL.cooEntries_mem groupings lengths hl hs _ (List.getElem_mem hk)
+  simp only [List.getD_eq_getElem?_getD, List.getElem?_map, List.getElem?_eq_getElem hk, Option.map_some,
+    Option.getD_some, List.length_cons, List.length_nil, List.getElem?_cons_zero, List.getElem?_cons_succ]
+  exact ⟨trivial, hm⟩
+
+/-! ### padding -/
+
+theorem getD_map_lt {α β : Type} (f : α → β) (l : List α) (i : Nat) (hi : i < l.length) (da : α) (db : β) :
+    (l.map f).getD i db = f (l.getD i da) := by
+  simp [List.getD_eq_getElem?_getD, List.getElem?_eq_getElem hi]
+
+/-- **padded matrices contain each item's values followed only by padding, and report the true
+lengths** -/
+theorem padIds_spec (rows : List (List Nat)) (pad : Nat) :
+    (padIds rows pad).2 = rows.map List.length ∧
+    (padIds rows pad).1.length = rows.length ∧
+    ∀ i, i < rows.length →
+      ∃ m, (∀ r ∈ rows, r.length ≤ m) ∧
+        (padIds rows pad).1.getD i [] = rows.getD i [] ++ List.replicate (m - (rows.getD i []).length) pad ∧
+        ((padIds rows pad).1.getD i []).length = m := by
+  refine ⟨rfl, by simp [padIds], ?_⟩
+  intro i hi
+  have hb : ∀ r ∈ rows, r.length ≤ (rows.map List.length).foldl max 0 := fun r hr =>
+    (GroupsL.le_foldl_max _ 0).2 _ (List.mem_map.2 ⟨r, hr, rfl⟩)
+  refine ⟨(rows.map List.length).foldl max 0, hb, ?_⟩
+  simp only [padIds]
+  rw [getD_map_lt _ rows i hi []]
+  refine ⟨rfl, ?_⟩
+  have hri : rows.getD i [] ∈ rows := by
+    rw [List.getD_eq_getElem?_getD, List.getElem?_eq_getElem hi]
+    exact List.getElem_mem hi
+  have := hb _ hri
+  simp only [List.length_append, List.length_replicate]
+  omega
+
+theorem paddingMask_spec (lengths : List Nat) :
+    (paddingMask lengths).length = lengths.length ∧
+    ∀ i, i < lengths.length → ∃ m, (∀ l ∈ lengths, l ≤ m) ∧
+      (paddingMask lengths).getD i [] =
+        List.replicate (lengths.getD i 0) true ++ List.replicate (m - lengths.getD i 0) false := by
+  refine ⟨by simp [paddingMask], ?_⟩
+  intro i hi
+  refine ⟨lengths.foldl max 0, (GroupsL.le_foldl_max lengths 0).2, ?_⟩
+  simp only [paddingMask]
+  rw [getD_map_lt _ lengths i hi 0]
+
+/-! ### non-vacuity -/
+
+example : groupWeights true (.nested [2, 1]) = [⟨1, 4⟩, ⟨1, 4⟩, ⟨1, 2⟩] := by decide
+example : qsum (groupWeights true (.nested [2, 1])) = ⟨32, 32⟩ := by decide
+example : qsum (groupWeights true (.full 3)) = ⟨27, 27⟩ := by decide
+example : groupWeights false (.nested [2, 1]) = [Q.one, Q.one, Q.one] := by decide
+/-- the hypothesis `0 < n` / `gs ≠ []` is needed: the empty sum is 0 -/
+example : ¬ Q.eqv (qsum (groupWeights true (.full 0))) Q.one := by decide
+example : ¬ Q.eqv (qsum (groupWeights true (.nested []))) Q.one := by decide
+/-- a zero-length inner group makes the mean weights sum to less than one -/
+example : ¬ Q.eqv (qsum (groupWeights true (.nested [0, 1]))) Q.one := by decide
+
+/-- two items, the first with a nested group (`Coo` has no `DecidableEq`, so its fields are compared) -/
+example :
+    (sparseCoo [([.nested [2, 1], .full 1], true), ([.full 2], false)] [4, 2]).map
+        (fun c => (c.rowBatch, c.rowGroup, c.rowToken)) =
+      some ([0, 0, 0, 0, 1, 1], [0, 0, 0, 1, 0, 0], [0, 1, 2, 3, 0, 1]) := by decide
+example :
+    (sparseCoo [([.nested [2, 1], .full 1], true), ([.full 2], false)] [4, 2]).map
+        (fun c => (c.values, c.size, c.groupLengths)) =
+      some ([⟨1, 4⟩, ⟨1, 4⟩, ⟨1, 2⟩, ⟨1, 1⟩, ⟨1, 1⟩, ⟨1, 1⟩], [2, 2, 4], [2, 1]) := by decide
+/-- the offset assertion: group lengths not summing to the token count -/
+example : sparseCoo [([.full 2], true)] [3] = none := by decide
+example : sparseCoo [([.full 2], true)] [2, 1] = none := by decide
+
+example : padIds [[7, 8, 9], [], [5]] 0 = ([[7, 8, 9], [0, 0, 0], [5, 0, 0]], [3, 0, 1]) := by decide
+example : paddingMask [2, 0, 3] = [[true, true, false], [false, false, false], [true, true, true]] := by decide
+example : utf8 0x20AC = [0xE2, 0x82, 0xAC] := by decide
+
 end Tu.C17
